@@ -233,6 +233,52 @@ Definition builtin_can_report (p : params) (merged : rules_map) (cat title : str
 Definition custom_can_report (p : params) (merged : rules_map) (cat title : str) (excluded : bool) : bool :=
   negb (ignored_rule p (entry_of merged cat title) cat title) && negb excluded.
 
+(* main.rego routes a rule through three entry points: `report` (operation "lint"), `aggregate`
+   (operation "collect") and `aggregate_report` (operation "aggregate"); each exists once for the
+   bundled rules and once for custom rules.  The gates, body by body:
+
+     bundled  report            _rules_to_run[category][title]; no notices
+     bundled  aggregate         _rules_to_run[category][title]
+     bundled  aggregate_report  _rules_to_run[category][title]
+                                (input.aggregate = what was supplied under the rule's key, [] if nothing)
+     custom   report            not ignored_rule; not excluded_file
+     custom   aggregate         not ignored_rule; not excluded_file
+     custom   aggregate_report  some key in object.keys(input.aggregates_internal);
+                                not ignored_rule; not excluded_file
+
+   The aggregates an aggregate_report run sees need not stem from the same run (Linter.WithAggregates:
+   they may have been collected under any other configuration / command line), so whether the rule's
+   key is among the supplied aggregates is an input of its own ([supplied]), not a consequence of the
+   `aggregate` gate.  [excluded] is config.excluded_file for the file at hand ("__aggregate_report__"
+   in the aggregate_report run), [noticed] "the rule has a notice". *)
+Inductive branch := BReport | BAggregate | BAggregateReport.
+
+Definition builtin_can_aggregate (p : params) (merged : rules_map) (cat title : str) (excluded : bool) : bool :=
+  rules_to_run_has p merged cat title excluded.
+
+Definition builtin_can_aggregate_report (p : params) (merged : rules_map) (cat title : str)
+           (excluded : bool) : bool :=
+  rules_to_run_has p merged cat title excluded.
+
+Definition custom_can_aggregate (p : params) (merged : rules_map) (cat title : str) (excluded : bool) : bool :=
+  negb (ignored_rule p (entry_of merged cat title) cat title) && negb excluded.
+
+Definition custom_can_aggregate_report (p : params) (merged : rules_map) (cat title : str)
+           (excluded supplied : bool) : bool :=
+  supplied && negb (ignored_rule p (entry_of merged cat title) cat title) && negb excluded.
+
+(* may the body of rule cat/title (bundled or custom) be evaluated in entry point [b] *)
+Definition branch_gate (custom : bool) (b : branch) (p : params) (merged : rules_map) (cat title : str)
+           (excluded noticed supplied : bool) : bool :=
+  match custom, b with
+  | false, BReport => builtin_can_report p merged cat title excluded noticed
+  | false, BAggregate => builtin_can_aggregate p merged cat title excluded
+  | false, BAggregateReport => builtin_can_aggregate_report p merged cat title excluded
+  | true, BReport => custom_can_report p merged cat title excluded
+  | true, BAggregate => custom_can_aggregate p merged cat title excluded
+  | true, BAggregateReport => custom_can_aggregate_report p merged cat title excluded supplied
+  end.
+
 (* the level result.fail puts on a violation *)
 Definition violation_level (p : params) (merged : rules_map) (cat title : str) : str :=
   level_for_rule p (entry_of merged cat title) cat title.
